@@ -8,6 +8,8 @@
 //	OBS sub=<res>|recv=<id>:<path>:<same object>:<inner settlement>,…|A=<metrics>|close=<res>/<inner closes>|chan=<closed>|B=<metrics>
 //	REQ rt <kp> <ks> <km> <script> <outcomes> @ pub=<hex> sub=<hex>
 //	OBS settle=<a|n…>|pub=<res>:<n msgs>;…|inv=<n>|metrics=…|close=ok
+//	REQ rto <ks> <rounds> <outcomes> @ pub=<hex> sub=<hex>   (overlapping invocations of one handler, run in a child process)
+//	OBS settle=<per round>|inv=<n>|metrics=…|close=ok   or   crashed:<hex of the fatal error line>
 //	REQ ch <sub stack> <pub stack> <script> <n> @ sub=<hex> pub=<hex>      (received object handed to the publisher stack)
 //	OBS <res>;…|probe=<ok>/<err>/<empty>/<repub>|metrics=…|recv=<n>
 //
@@ -36,6 +38,18 @@ var offs = []int64{-3600000000000, 0, 1000000000, 172800000000000, 6311520000000
 
 func pickI(r *wh.Rng, xs []int64) string { return i64(xs[r.Intn(len(xs))]) }
 
+// zones (seconds east of UTC) of the time.Time handed to delay.Until: +02:00, -05:00, +05:30, -00:30
+var zones = []int64{7200, -18000, 19800, -1800}
+
+// untilSpec: an offset, in half of the cases with a time that carries a non-UTC location
+func untilSpec(r *wh.Rng) string {
+	s := "u" + pickI(r, offs)
+	if r.Bool() {
+		s += "z" + pickI(r, zones)
+	}
+	return s
+}
+
 func randLayer(r *wh.Rng, sub bool) layerSpec {
 	n := 3
 	if sub {
@@ -58,7 +72,7 @@ func randLayer(r *wh.Rng, sub bool) layerSpec {
 	case 4, 5:
 		l.gen = "f" + pickI(r, durs)
 	case 6:
-		l.gen = "u" + pickI(r, offs)
+		l.gen = untilSpec(r)
 	case 7:
 		l.gen = "o" + pickI(r, durs)
 	}
@@ -79,7 +93,8 @@ func randMsg(r *wh.Rng) msgSpec {
 	case 0, 1:
 		m.untilTok = "t" + i64(int64(r.Intn(4000000000))-1000000000)
 	case 2:
-		m.untilTok = "x" + wh.HexS(r.Pick("tomorrow", "2024-01-01", "2024-01-01T00:00:00+02:00"))
+		// canonUntil: a well-formed rendering in a non-UTC zone is t<sec>@<zone> in the request as well
+		m.untilTok = canonUntil(r.Pick("tomorrow", "2024-01-01", "2024-01-01T00:00:00+02:00", "2031-05-06T07:08:09-05:00"))
 	}
 	switch r.Intn(10) {
 	case 0:
@@ -87,7 +102,7 @@ func randMsg(r *wh.Rng) msgSpec {
 	case 1, 2, 3:
 		m.ctx = "f" + pickI(r, durs)
 	case 4, 5:
-		m.ctx = "u" + pickI(r, offs)
+		m.ctx = untilSpec(r)
 	}
 	return m
 }
@@ -226,7 +241,7 @@ func genPub(out *wh.Out, a wh.Args, rng *wh.Rng) {
 		{"-", "-", "-"},
 		{"d5000000000", "t1893456000", "-"},
 		{"-", "-", "f3000000000"},
-		{"-", "-", "u7200000000000"},
+		{"-", "-", "u7200000000000z7200"},
 		{"x" + wh.HexS("abc"), "-", "f1000"},
 		{"x-", "t100", "-"},
 		{"-", "-", "z"},
@@ -490,6 +505,28 @@ func genCh(out *wh.Out, a wh.Args, rng *wh.Rng) {
 	}
 }
 
+func genRto(out *wh.Out, a wh.Args, rng *wh.Rng) {
+	rounds := 40
+	n := 3
+	if a.Thorough() {
+		rounds, n = 120, 10
+	}
+	for i := 0; i < n && !overBudget(out); i++ {
+		c := rtoCase{ks: i % 3, rounds: rounds}
+		for j, k := 0, 4+rng.Intn(7); j < k; j++ {
+			c.outcomes = append(c.outcomes, []string{"s0", "e", "s0", "p"}[(i+j+rng.Intn(2))%4])
+		}
+		out.Begin(c.head())
+		req, obs := runRto(c)
+		out.Case(req, obs)
+		out.Count("rto.scenarios_in_child_process")
+		out.Add("rto.overlapping_invocations", c.rounds*len(c.outcomes))
+		if strings.HasPrefix(obs, "crashed:") {
+			out.Count("rto.child_crashed")
+		}
+	}
+}
+
 func replay(out *wh.Out, line string) {
 	if i := strings.Index(line, " @"); i >= 0 {
 		line = line[:i]
@@ -510,6 +547,8 @@ func replay(out *wh.Out, line string) {
 		out.Case(runRt(parseRt(f)))
 	case len(f) == 5 && f[0] == "ch":
 		out.Case(runCh(parseCh(f)))
+	case len(f) == 4 && f[0] == "rto":
+		out.Case(runRto(parseRto(f)))
 	default:
 		fmt.Fprintln(os.Stderr, "unknown request")
 		out.Case(line, "bad-replay")
@@ -552,4 +591,5 @@ func main() {
 	genSub(out, a, rng)
 	genRt(out, a, rng)
 	genCh(out, a, rng)
+	genRto(out, a, rng)
 }
